@@ -1,7 +1,9 @@
 """C04 - at most max_concurrency pooled nodes in flight; resources decide the thread."""
 from typing import Any, Dict, List
 
-from .. import schedchecks as sc
+from hypothesis import strategies as st
+
+from .. import gen, schedchecks as sc
 from ..harness import CaseResult, Harness
 from ..schedcase import Model
 
@@ -30,10 +32,40 @@ def _nt(case: Dict[str, Any], M: Model, stats: List[Dict[str, Any]]) -> bool:
 
 
 def run_case(case: Dict[str, Any]) -> CaseResult:
-    return sc.evaluate(case, ORACLES, _nt)
+    res = sc.evaluate(case, ORACLES, _nt)
+    if case.get("very_wide"):
+        res.cls("very-wide-33-48-independent-nodes")
+    return res
+
+
+@st.composite
+def _very_wide(draw: Any) -> Dict[str, Any]:
+    """Scale: 33-48 independent pooled nodes with a max_concurrency at least as large - every one of them can be in
+    flight at once, so every one of them has a worker (the pool is as large as the limit the user configured)."""
+    n = draw(st.integers(33, 48))
+    kinds = draw(st.sampled_from([["thread"], ["async-thread"], ["thread", "async-thread"]]))
+    fns, body = {}, []
+    for i in range(n):
+        fns[f"w{i}"] = {"kind": "term", "res": kinds[i % len(kinds)], "prio": draw(st.integers(0, 2))}
+        body.append({"k": "call", "fn": f"w{i}", "site": gen.site(i), "mark": True, "args": [], "kwargs": {}, "active": None,
+                     "unpack": None, "tags": [], "out": f"v{i}"})
+    P = {"name": "WIDE", "params": [], "fns": fns, "body": body, "ret": ["T", [["v", f"v{i}"] for i in range(n)]]}
+    return {"prog": P, "mc": n + draw(st.integers(0, 16)), "async": draw(st.booleans()), "mode": "ctl",
+            "choices": draw(st.lists(st.integers(0, 2**16), max_size=6)), "very_wide": True}
+
+
+@st.composite
+def _cases(draw: Any, tier: str) -> Dict[str, Any]:
+    if draw(st.integers(0, 79)) == 0:
+        return draw(_very_wide())
+    return draw(_base(tier))
 
 
 def strategy(tier: str) -> Any:
+    return _cases(tier)
+
+
+def _base(tier: str) -> Any:
     return sc.sched_case(tier=tier, modes=("ctl", "ctl", "free", "ctl-ex"), min_sites=3, max_sites=10, wide=True,
                          seq_rate=0.1, prio=(-2, 4), config_rate=0.15, max_mc=4, n_setup=2, setup_call_rate=0.15,
                          spawn_fail_rate=0.1, flag_rate=0.3)
